@@ -3,7 +3,7 @@ import copy
 from common import *
 from gen import G, apply_lop, apply_dop
 
-HEADER = "From Coq Require Import List ZArith NArith.\nFrom SC Require Import Model.Val Model.Plain Model.Ops Corr.KPlain.\nImport ListNotations.\nOpen Scope Z_scope.\n"
+HEADER = "From Coq Require Import List ZArith NArith.\nFrom SC Require Import Model.Val Model.Plain Model.Ops Corr.KPlain.\nImport ListNotations.\n"
 
 
 def make_cases(seed, n):
